@@ -99,7 +99,49 @@ for case in range(N):
                 n_order += 1
     except Exception as e:
         fails.append({'witness': {'seed': seed, 'case': case}, 'what': 'exception %s: %s' % (type(e).__name__, str(e)[:100])})
-print(json.dumps({'bounded': [{'name': 'equilibrium-solver-results',
+# ---- from_thermdat: the file is read every time it is named (no memory of an earlier file under the same path) -------------
+import tempfile
+from pmutt.io.thermdat import write_thermdat
+f2 = []
+n2 = 0
+for case in range(6):
+    sp_ = []
+    for i in range(3):
+        a = np.zeros(7)
+        a[0] = 3.5
+        a[5] = rng.uniform(-25, 25) * 1000
+        a[6] = rng.uniform(0, 20)
+        sp_.append(Nasa(name='S%d' % i, T_low=200, T_mid=1000, T_high=3000, a_low=a.copy(), a_high=a.copy(), elements={'H': i + 1}, phase='G'))
+    d = tempfile.mkdtemp(prefix='pvc_eq_')
+    path = os.path.join(d, 'thermdat')
+    try:
+        n2 += 1
+        write_thermdat(filename=path, nasa_species=sp_)
+        eq1 = E.Equilibrium.from_thermdat(path, {s.name: 1.0 for s in sp_})
+        sp_[1].a_low[5] += 3.0e4
+        sp_[1].a_high[5] += 3.0e4
+        write_thermdat(filename=path, nasa_species=sp_)
+        eq2 = E.Equilibrium.from_thermdat(path, {s.name: 1.0 for s in sp_})
+        got = float(eq2.model['S1'].a_low[5])
+        if abs(got - sp_[1].a_low[5]) > 1e-6 * abs(sp_[1].a_low[5]):
+            f2.append({'witness': {'seed': seed, 'case': case}, 'key': 'stale-file',
+                       'what': 'from_thermdat on a rewritten file returned the species of the earlier file (a_low[5] %r, file has %r)'
+                       % (got, float(sp_[1].a_low[5]))})
+        with warnings.catch_warnings():
+            warnings.simplefilter('ignore')
+            g2 = [float(x) for x in (eq2.get_net_comp(T=800., P=1.), eq2.gibbs)[1]]
+        want = [float(s.get_GoRT(T=800.)) for s in sp_]
+        if max(abs(a_ - b_) for a_, b_ in zip(g2, want)) > 1e-6 * max(1., max(abs(w) for w in want)):
+            f2.append({'witness': {'seed': seed, 'case': case}, 'key': 'stale-gibbs',
+                       'what': 'Gibbs energies handed to the solver %r differ from the file contents %r' % (g2, want)})
+    except Exception as e:
+        f2.append({'witness': {'seed': seed, 'case': case}, 'what': 'exception %s: %s' % (type(e).__name__, str(e)[:100])})
+    finally:
+        import shutil
+        shutil.rmtree(d, ignore_errors=True)
+print(json.dumps({'bounded': [{'name': 'from_thermdat-reads-the-named-file-every-time', 'scope': '6 files rewritten in place between two constructions',
+                               'n': n2, 'failures': f2[:10]},
+                              {'name': 'equilibrium-solver-results',
                                'scope': '%d seeded networks of 2-8 species over 1-4 elements; %d unconverged (all signalled); '
                                         'measured only, not judged (assumed SLSQP contract): %d converged results with a lower-energy '
                                         'atom-conserving neighbour, %d order-dependent' % (N, n_unconverged, n_not_minimal, n_order),
